@@ -111,6 +111,8 @@ def run(ctx):
     workers = max(4, min(14, common.NPROC - 2))
     scns = cl.scenario_list(ctx) + [cl.Scn("manydup", "0004", False), cl.Scn("dupold", "0004", False)] + \
         ([] if ctx.quick() else [cl.Scn("manydup", "0002", True), cl.Scn("dupold", "0002", True)])
+    seen = set()
+    scns = [x for x in scns if not (x.name in seen or seen.add(x.name))]      # (the thorough list has every kind already)
     recs = cl.prepare(ctx, env, scns, workers=workers)
     for r in recs:
         # recovery (remove the stale lock, commit again) after every kill: quick tier in the scenarios whose commit deletes staged files
